@@ -149,7 +149,7 @@ func TestVerifC10(t *testing.T) {
 	defer r.Finish(func(s string) { t.Error(s) })
 	N := bufLen()
 	r.Set("reader_buffer_bytes", N)
-	r.Set("rule", "per stream (every line kind of both grammars, junk around): every byte offset as the cut x 6 end signals (EOF after data, EOF with the last data, injected error after data, injected error with the last data, each repeated forever; the error reported once then EOF, after / with the last data) x deliveries (all at once, byte at a time; the same again in the 64-byte buffer build); the whole resume history is run. Oracle: no panic, history terminates; injected error => the history ends with exactly that error; EOF => io.EOF or a parse error, the latter only when the cut lies inside a dump; complete goroutines (text entirely before the cut) present and identical to the uncut parse with pseudo-names blanked, at most one more (partial) goroutine; forwarded bytes are a prefix of the uncut forwarding (modulo <=2 trailing lines that are the start of the dump being cut). non-trivial = cut strictly inside a dump; distinct = (stream, cut, signal, delivery)")
+	r.Set("rule", "per stream (every line kind of both grammars, junk around): every byte offset as the cut x 6 end signals (EOF after data, EOF with the last data, injected error after data, injected error with the last data, each repeated forever; the error reported once then EOF, after / with the last data) x deliveries (all at once, byte at a time; thorough adds 3 and 7 bytes at a time and a line at a time; the same again in the 64-byte buffer build); the whole resume history is run. Oracle: no panic, history terminates; injected error => the history ends with exactly that error; EOF => io.EOF or a parse error, the latter only when the cut lies inside a dump; complete goroutines (text entirely before the cut) present and identical to the uncut parse with pseudo-names blanked, at most one more (partial) goroutine; forwarded bytes are a prefix of the uncut forwarding (modulo <=2 trailing lines that are the start of the dump being cut). non-trivial = cut strictly inside a dump; distinct = (stream, cut, signal, delivery)")
 	r.Set("assumptions", []string{"goroutine text ranges come from the generators", "where C10's prefix rule and C02's conservation rule meet (cut inside a dump's first lines) the weaker reading is used (DESIGN.md section 5, C10)"})
 	if rv := r.ReplayFile(); rv != nil {
 		t.Logf("replay %s: %s\nexpected: %s\nobserved: %s\ninput: %q", rv.Key, rv.Summary, rv.Expected, rv.Observed, trunc(string(rv.Input())))
@@ -158,6 +158,10 @@ func TestVerifC10(t *testing.T) {
 	opts := &Opts{NameArguments: true}
 	streams := c10Streams(r.Thorough())
 	seq := 0
+	nDel := 2
+	if r.Thorough() {
+		nDel = 5
+	}
 	for _, st := range streams {
 		data := st.data
 		// the uncut reference
@@ -188,7 +192,7 @@ func TestVerifC10(t *testing.T) {
 		}
 		for cut := 0; cut <= len(data); cut++ {
 			for sig := 0; sig < 6; sig++ {
-				for del := 0; del < 2; del++ {
+				for del := 0; del < nDel; del++ {
 					seq++
 					if !r.MineIdx(seq) || r.Expired() {
 						continue
@@ -207,9 +211,19 @@ func TestVerifC10(t *testing.T) {
 							sr.failErr = errSentinel
 						}
 						sr.failOnce = sig >= 4 // the failure is reported once, then the reader says EOF
-						if del == 1 {
+						switch del {
+						case 1, 2, 3: // 1, 3, 7 bytes at a time
+							w := []int{0, 1, 3, 7}[del]
+							for i := 0; i < cut; i += w {
+								sr.chunks = append(sr.chunks, w)
+							}
+						case 4: // a line at a time
+							last := 0
 							for i := 0; i < cut; i++ {
-								sr.chunks = append(sr.chunks, 1)
+								if data[i] == '\n' {
+									sr.chunks = append(sr.chunks, i+1-last)
+									last = i + 1
+								}
 							}
 						}
 						mk := func(fp, msg string) *h.Viol {
